@@ -318,7 +318,20 @@ func (p *Prog) Func(rel, name string) *Fn {
 	if rel != "" {
 		path += "/" + rel
 	}
-	return p.byName[path+"."+name]
+	if f := p.byName[path+"."+name]; f != nil {
+		return f
+	}
+	// a method is found under either receiver kind: T.M and (*T).M name the
+	// same anchor (moving a method between value and pointer receiver does not
+	// by itself change what it does)
+	if i := strings.Index(name, "."); i > 0 {
+		recv, m := name[:i], name[i+1:]
+		if strings.HasPrefix(recv, "(*") && strings.HasSuffix(recv, ")") {
+			return p.byName[path+"."+recv[2:len(recv)-1]+"."+m]
+		}
+		return p.byName[path+".(*"+recv+")."+m]
+	}
+	return nil
 }
 
 // FnOf returns the source function for a types.Func, if it is in scope.
